@@ -112,12 +112,18 @@ def py_check(res):
                 p = cmp_
                 while getattr(p, "_parent", None) is not None:
                     par = p._parent
+                    conj = []
                     if isinstance(par, ast.BoolOp) and isinstance(par.op, ast.And):
-                        for v in par.values:
-                            if isinstance(v, ast.Attribute) and pyfront.unparse(v.value) == "self":
-                                vals = consts.get(v.attr, {})
-                                if vals and all(x is False for x in vals.values()) and v.attr not in mb_names:
-                                    guard_ok = True
+                        conj = list(par.values)
+                    elif isinstance(par, ast.If) and any(p is b or any(x is p for x in ast.walk(b)) for b in par.body):
+                        # the comparison sits in the branch taken when the test holds
+                        conj = list(par.test.values) if isinstance(par.test, ast.BoolOp) and \
+                            isinstance(par.test.op, ast.And) else [par.test]
+                    for v in conj:
+                        if isinstance(v, ast.Attribute) and pyfront.unparse(v.value) == "self":
+                            vals = consts.get(v.attr, {})
+                            if vals and all(x is False for x in vals.values()) and v.attr not in mb_names:
+                                guard_ok = True
                     p = par
                 if not guard_ok:
                     res.findings.add(dict(
